@@ -265,8 +265,8 @@ func runPluginNames() int {
 			}
 		}
 		// a leftover from earlier times (half of the installations of "q"): <root>/q is a symbolic link to a directory elsewhere
-		// in the sandbox that holds no plugin; installing must not write through it
-		if (in.Op == "InstallFile" || in.Op == "InstallDir") && nameStr == "q" && mix(*flagSeed, c.ID, "link")%3 != 0 {
+		// in the sandbox that holds no plugin; installing must not write through it, uninstalling removes the link and not what it points at
+		if (in.Op == "InstallFile" || in.Op == "InstallDir" || in.Op == "Uninstall") && nameStr == "q" && mix(*flagSeed, c.ID, "link")%3 != 0 {
 			must(os.RemoveAll(filepath.Join(root, "q")))
 			must(os.MkdirAll(filepath.Join(top, "linktarget"), 0755))
 			must(os.WriteFile(filepath.Join(top, "linktarget", "kept.txt"), []byte("not a plugin"), 0644))
